@@ -114,6 +114,7 @@ func runLong(p *LongProgram, s *Sched, prop string) (*Violation, *vs.Result, boo
 	vs.TickOn = false
 	vs.SetLayoutSeed(p.Layout)
 	api := adapt.New(p.Spec)
+	defer api.Release()
 	n := len(p.Threads)
 	models := make([]*model.M, n)
 	errs := make([]string, n)
